@@ -50,7 +50,11 @@ type Engine struct {
 	allSorts       map[string]string
 	interiorPtr    map[string]string
 	interiorPtrRev map[string]*Ptr
-	closureRev     map[string]Val
+	// smallArr: elements stored (at any index) into arrays allocated by the function itself, keyed by the
+	// array's reference term: the values a variadic argument slice carries, so that a call that receives
+	// the slice is known to reach the pointers boxed in it (rows.Scan(&a, &b))
+	smallArr   map[string][]Val
+	closureRev map[string]Val
 	cellCtr        int
 	paths          int
 	maxPaths       int
@@ -89,7 +93,7 @@ func NewEngine(p *Prog, u *Unit) *Engine {
 	bv := u.C != nil && u.C.Arith == "bv"
 	e := &Engine{P: p, S: NewSMT(bv), unit: u,
 		obls: map[string]*Obl{}, heapSorts: map[string]string{}, interiorPtr: map[string]string{},
-		interiorPtrRev: map[string]*Ptr{}, closureRev: map[string]Val{}, assumptions: map[string]bool{},
+		interiorPtrRev: map[string]*Ptr{}, smallArr: map[string][]Val{}, closureRev: map[string]Val{}, assumptions: map[string]bool{},
 		unmodelled: map[string]bool{}, usedContracts: map[string]bool{}, usedLib: map[string]bool{},
 		loops: map[*ssa.Function]map[*ssa.BasicBlock]*loopInfo{}, globalsSeen: map[*ssa.Global]string{},
 		maxPaths: 6000, callOrd: map[*ssa.Function]map[ssa.Instruction]string{}, usedAts: map[*AtSpec]bool{}, usedRangeSpecs: map[*LoopSpec]bool{}, modsetCache: map[*ssa.Function]map[string]bool{}}
@@ -908,6 +912,12 @@ func (e *Engine) anchorsOf(fn *ssa.Function) map[ssa.Instruction]string {
 				}
 			case *ssa.Panic:
 				key = "panic"
+			case *ssa.Send:
+				key = "send"
+			case *ssa.UnOp:
+				if x.Op == token.ARROW {
+					key = "recv"
+				}
 			}
 			if key != "" {
 				all = append(all, posInstr{in, key})
@@ -975,7 +985,12 @@ func (e *Engine) runAts(st *State, in ssa.Instruction, after bool) {
 		if isAfter != after {
 			continue
 		}
-		if a != name && !(strings.HasSuffix(name, "#1") && strings.TrimSuffix(name, "#1") == a) {
+		if strings.HasSuffix(a, "#*") {
+			// "call F#*": every occurrence of the anchor
+			if i := strings.LastIndex(name, "#"); i < 0 || name[:i] != strings.TrimSuffix(a, "#*") {
+				continue
+			}
+		} else if a != name && !(strings.HasSuffix(name, "#1") && strings.TrimSuffix(name, "#1") == a) {
 			continue
 		}
 		env := e.envFor(st, evalFr, st.old)
@@ -988,6 +1003,18 @@ func (e *Engine) runAts(st *State, in ssa.Instruction, after bool) {
 					env.callArgs = append(env.callArgs, e.constVal(c))
 				} else {
 					env.callArgs = append(env.callArgs, Val{})
+				}
+			}
+		}
+		if sd, ok := in.(*ssa.Send); ok {
+			// at send#k: callarg0 is the channel, callarg1 the value sent
+			for _, a := range []ssa.Value{sd.Chan, sd.X} {
+				if r, ok := fr.regs[a]; ok {
+					env.callArgs = append(env.callArgs, r)
+				} else if c, ok := a.(*ssa.Const); ok {
+					env.callArgs = append(env.callArgs, e.constVal(c))
+				} else {
+					env.callArgs = append(env.callArgs, e.reg(st, a))
 				}
 			}
 		}
